@@ -121,5 +121,37 @@ def pgStep (r : Run) (x : T) : Dist T :=
 def pgGiven (r : Run) (x : T) (σ : List Nat) : Dist T :=
   Dist.norm (Dist.bind (csmc r x σ) select)
 
+/-! ### Unconditional SMC (`SMCSampler`, used by the burn-in sampler `UnconditionalSMCSampler`) -/
+
+/-- `SMCSampler._resample_swarm`: all N slots are redrawn by `multinomial(N, weights)` -/
+def resampleFree (r : Run) (sw : Swarm) : Dist Swarm :=
+  if needResample r sw then
+    let u : Rat := 1 / (r.N : Rat)
+    Dist.norm (Dist.fmap (fun anc =>
+      (Forest.sortNat anc).map fun a => ((sw.getD a (T.empty, 0)).1, u)) (ancestorSeqs sw r.N))
+  else Dist.pure sw
+
+def sweepFree (r : Run) (σ : List Nat) : Nat → Nat → Dist Swarm → Dist Swarm
+  | 0, _, d => d
+  | fuel+1, t, d =>
+    match σ[t]? with
+    | none => d
+    | some i =>
+      let last := t + 1 == σ.length
+      -- update, then (except after the last data point) resample
+      let upd := Dist.norm (Dist.bind d fun sw => proposeAll r (t == 0) last i sw)
+      let nxt := if last then upd else Dist.norm (Dist.bind upd fun sw => resampleFree r sw)
+      sweepFree r σ fuel (t + 1) nxt
+
+/-- `SMCSampler.sample`: N empty particles with weight 1/N, then one update per data point -/
+def smc (r : Run) (σ : List Nat) : Dist Swarm :=
+  sweepFree r σ σ.length 0 (Dist.pure ((List.range r.N).map fun _ => (T.empty, 1 / (r.N : Rat))))
+
+/-- `UnconditionalSMCSampler.sample_tree`: the data order is drawn from the current tree, the new
+tree is drawn from the final swarm in proportion to the weights -/
+def smcStep (r : Run) (x : T) : Dist T :=
+  Dist.norm (Dist.bind (Dist.norm (sampleOrder x.f x.out)) fun σ =>
+    Dist.bind (smc r σ) select)
+
 end SMC
 end PhyModel
